@@ -84,12 +84,19 @@ def exc_enum(e):
     return "Other"
 
 
-def build_zip(schema, members):
+def build_zip(schema, members, big=None):
+    """members hold b"x"; `big` = {name: size} makes that member a valid .npy of about `size` bytes of zeros (deflated)"""
     buf = io.BytesIO()
-    with zipfile.ZipFile(buf, "w") as z:
+    with zipfile.ZipFile(buf, "w", compression=zipfile.ZIP_DEFLATED if big else zipfile.ZIP_STORED) as z:
         z.writestr("schema.json", json.dumps(schema))
         for n in members:
-            z.writestr(n, b"x")
+            if big and n in big:
+                import numpy as _np
+                b = io.BytesIO()
+                _np.save(b, _np.zeros(big[n] // 8))
+                z.writestr(n, b.getvalue())
+            else:
+                z.writestr(n, b"x")
     return buf.getvalue()
 
 
@@ -404,6 +411,8 @@ def mode_inert(req_cases):
         elif ev == "open":
             if str(args[0]) != state["allowed"] and not str(args[0]).endswith((".pyc", ".py", ".so")):
                 hook_events.append(["open", str(args[0]), str(args[1])])
+        elif ev in ("tempfile.mkdtemp", "tempfile.mkstemp", "os.mkdir"):
+            hook_events.append([ev, str(args)[:80]])
         elif ev in ("exec", "compile"):
             # compile/exec happen inside the import of a module: judged by the import event itself
             pass
@@ -411,8 +420,10 @@ def mode_inert(req_cases):
             hook_events.append([ev, str(args)[:80]])
     sys.addaudithook(hook)
     out = []
+    import tempfile
     for case in cases:
-        data = build_zip(case["schema"], case["members"])
+        data = build_zip(case["schema"], case["members"], case.get("big"))
+        tmp_before = set(os.listdir(tempfile.gettempdir()))
         f = scratch / f"inert{os.getpid()}.skops"
         f.write_bytes(data)
         state["allowed"] = str(f)
@@ -442,6 +453,10 @@ def mode_inert(req_cases):
         # the part of load before the trust decision: with an empty trusted list every canary name is refused
         step("loads(trusted=[])", lambda: sio.loads(data, trusted=[]))
         step("load(file,trusted=None)", lambda: sio.load(f, trusted=None))
+        left = sorted(set(os.listdir(tempfile.gettempdir())) - tmp_before)
+        if left:
+            rec["steps"]["(after all steps)"] = {"result": "ok", "resolved": [], "import_module": [], "ledger": [], "new_modules": [],
+                                                 "hook": [["left-in-tempdir", x] for x in left[:5]]}
         # modules imported by a legitimate construct (audit passed) would show up here: drop them from the baseline
         for m in list(sys.modules):
             if m.startswith("verif_cm_"):
